@@ -329,6 +329,15 @@ fn cmd_run(args: &[String]) -> i32 {
         if case.records.iter().any(|r| r.seq.len() > (1 << 24)) {
             *probes.entry("record>2^24_bases".to_string()).or_insert(0) += 1;
         }
+        if case.records.iter().any(|r| r.seq.len() >= 600_000 && r.seq.len() <= (1 << 24)) {
+            *probes.entry("record>=600kb".to_string()).or_insert(0) += 1;
+        }
+        if case.records.len() >= 32768 {
+            *probes.entry("records>=32768".to_string()).or_insert(0) += 1;
+        }
+        if case.records.len() > 65536 {
+            *probes.entry("records>65536".to_string()).or_insert(0) += 1;
+        }
         if case.records.len() >= 10000 {
             *probes.entry("records>=10000".to_string()).or_insert(0) += 1;
         }
